@@ -43,7 +43,7 @@ def plan(tier):
 def describe(tier):
     return {
         'rule': 'circ: every circuit of F(n,k,FMT) (14 format types at format arities - constants carry two operands; n>=0) and F(n,k,EXT) (3/4-ary gates, '
-        'L*/R* types, constants with 0/1 operands) x outputs (all sequences of length 0..2) x storage orders (creation; declared input order reversed / rotated; every '
+        'L*/R* types, constants with 0/1 operands) x outputs (all sequences of length 0..2) x object/storage variants (creation; copy.deepcopy; pickle round trip; declared input order reversed / rotated; every '
         'order reachable by renaming each gate away and back) -> encode/decode; structural '
         'comparison up to renaming + truth tables. bits: every bit string of length<=12, every write_number(v,len) '
         'sequence (len<=10 singles, len<=5 pairs/triples), 16/24/32-bit numbers at aligned and unaligned positions (all 16-bit values; structured bytes above), overflow and read-past-end. dict: every dict with <=2 entries over '
@@ -97,6 +97,8 @@ def storage_orders(c_builder, labs_gates):
     """Yield (tag, circuit) for the creation order and for orders obtained by renaming
     gates away and back (a renamed gate moves to the end of the gate map)."""
     yield 'creation', c_builder()
+    for tag, cv in space.identity_variants(c_builder()):
+        yield tag, cv
     c = c_builder()
     if len(c.inputs) >= 2:
         # declared input order differs from the order the INPUT gates are stored in
@@ -306,7 +308,7 @@ def check_bits(acc):
     acc.sample({'numbers': [[5, 3], [0, 0], [17, 5]]})
 
 
-KEYS = ['', 'a', 'ab', 'é', '€']
+KEYS = ['', 'a', 'ab', 'é', '€', '\ufeffa', 'a\ufeff']
 VALS = [b'', b'\x00', b'ab']
 
 
